@@ -32,6 +32,9 @@ def dispatch(prop):
     if prop == "C13":
         import e3_persist
         return e3_persist.main
+    if prop == "C03":
+        import e3_density
+        return e3_density.main
     raise SystemExit(f"unknown property {prop}")
 
 
